@@ -66,6 +66,9 @@ def mk(m, pid, q):
         valid = "outputs i < truncated_size" if m["op"] == "fft" else "all outputs (inputs beyond truncated_size are zero)"
         return Harness(name, pid, f"real NoSimd::{m['op']}(pos=1, size={m['size']}, truncated_size={m['trunc']}, skew_delta={m['delta']}): shard {m['p']} = fully symbolic 64-byte block, others 0 => {valid}, all 32 lanes, equal M[i][{m['p']}]*x with M = X_k(delta^i) from the oracle; guard shards before/after the chunk unchanged",
                        encodes=ENG_FNS[eng], bounds="one block per shard; this call tuple; unwind 128", timeout=1800, mem_gb=8, symbolic="64 bytes of one shard + 128 guard bytes", tiers=tiers)
+    if m["kind"] == "basis_lane":
+        return Harness(name, pid, f"real NoSimd::{m['op']}(size={m['size']}, truncated_size={m['trunc']}, skew_delta={m['delta']}): ONE symbolic symbol (lane 3) in shard {m['p']}, everything else zero => valid outputs in that lane equal M[i][{m['p']}]*x (oracle matrix)",
+                       encodes=ENG_FNS[eng], bounds="one symbolic lane of one shard; this call tuple; unwind 128", timeout=3600, mem_gb=10, symbolic="one 16-bit symbol", tiers=("thorough",))
     if m["kind"] == "additive":
         return Harness(name, pid, f"real NoSimd::{m['op']}(size={m['size']}, truncated_size={m['trunc']}, skew_delta={m['delta']}): f(a)^f(b) == f(a^b) on all valid outputs for fully symbolic buffers",
                        encodes=ENG_FNS[eng], bounds="one block per shard; unwind 128", timeout=2400, mem_gb=10, symbolic=f"2 x {m['size']} x 64 bytes", tiers=tiers)
@@ -87,7 +90,7 @@ def plan(ctx):
     rnd = random.Random(ctx.seed)
     fam = families.c15_family()
     q = select(rnd, fam)
-    hs = [mk(m, "C15", q) for m in fam if (m["kind"] in ("basis", "additive", "kat") and m["engine"] == "nosimd") or (m["kind"] == "mul" and m["engine"] != "neon")]
+    hs = [mk(m, "C15", q) for m in fam if (m["kind"] in ("basis", "basis_lane", "additive", "kat") and m["engine"] == "nosimd") or (m["kind"] == "mul" and m["engine"] != "neon")]
     for n, what in (("add_sub_mod_all_inputs_h", "add_mod / sub_mod are addition / subtraction modulo 65535 for all 2^32 operand pairs incl. the 0/65535 double zero"),
                     ("fwht_2_all_inputs_h", "fwht_2 is (a+b, a-b) modulo 65535 for all 2^32 pairs")):
         hs.append(Harness(f"c15e::{n}", "C15", what, encodes=["utils::add_mod", "utils::sub_mod", "fwht::fwht_2"], bounds="none (two 16-bit operands)", flags=FULL, timeout=600, mem_gb=4,
@@ -103,7 +106,7 @@ def plan(ctx):
                              "basis (every input position) + additivity => the primitive equals the oracle matrix for all data (linear algebra outside the solver)",
                              "mul: arbitrary-linear-row proof composed with T2/T3 (every real row is the nibble table of multiplication by g^m) gives all 2^32 (symbol, log_m) pairs",
                              "other engines: C03 miters against NoSimd"],
-                outside=["FFT sizes > 8", "more than one 64-byte block per shard in fft/ifft harnesses (lane/block locality: mul harness with 2 blocks; C04)",
+                outside=["FFT sizes > 8 with fully symbolic blocks (sizes 16 and 32: one symbolic lane, 9 call tuples, thorough tier); sizes > 32", "more than one 64-byte block per shard in fft/ifft harnesses (lane/block locality: mul harness with 2 blocks; C04)",
                          "eval_poly end to end and the fwht loop schedule: NOT decided (65536-point transforms cannot be executed by CBMC; DESIGN 6/C15); only add_mod/sub_mod/fwht_2/fwht_4 are",
                          "skew offsets other than {0, size, 2*size, 65536-size}"],
                 trusted_base=COMMON_TRUSTED + ["z3 4.8.12"], zqueries=zq, run_z=zcheck.run_queries)
